@@ -49,6 +49,7 @@ impl<'c, Q: Queue> Interp<'c, Q> {
             Op::Sorted { how, prog } => self.do_sorted(*how, prog),
             Op::EqProbe => self.do_eq_probe(),
             Op::IntoVecRebuild => self.do_into_vec(),
+            Op::DeserSeq { pairs, carrier, cross } => self.do_deser_seq(pairs, *carrier, *cross),
         }
     }
 
